@@ -395,3 +395,11 @@ class P(Prop):
         if n >= 2:
             yield dict(case, xs=case["xs"] + [case["xs"][0]], ys=case["ys"] + [case["ys"][0]])
             yield dict(case, xs=case["xs"][:-1] + [case["xs"][0]], ys=case["ys"][:-1] + [case["ys"][0]])
+
+
+# ---- tie to the source by translation (tools/py2lean.py -> lean/TracklibVerif/Gen/Geometry.lean, regenerated on every run)
+P.tie_modules = ["TracklibVerif.Tie.C16"]
+P.theorems = P.theorems + [
+    ("TracklibVerif.Tie.C16", "TV.Tie.C16.tie_triangle_area", "the Lean translation of the CURRENT source of geometry.triangle_area equals the model's triangleArea on all arguments (0.5 = 1/2)"),
+    ("TracklibVerif.Tie.C16", "TV.Tie.C16.tie_distance_to_segment", "the Lean translation of the CURRENT source of geometry.distance_to_segment equals the model's distanceToSegment on all arguments (given that the scalar's == is Python's ==)"),
+]
